@@ -51,9 +51,13 @@ def gen_small(rng):
     return d
 
 
-def text_of(desc, fmt, key_style, graph_id=None):
+def text_of(desc, fmt, key_style, graph_id=None, drop_id_of=None):
     import networkx as nx
     g = rawgraph.to_nx(desc, key_style=key_style, graph_id=graph_id)
+    if drop_id_of is not None:
+        # an ill-formed model text: the k-th node has no NodeID (the importers must refuse it)
+        k = list(g.nodes)[drop_id_of % len(g.nodes)]
+        g.nodes[k].pop('NodeID', None)
     if fmt == 'graphml':
         return '\n'.join(nx.generate_graphml(g))
     return json.dumps(nx.readwrite.node_link_data(g))
@@ -83,8 +87,11 @@ def gen_op(rng, gids, live):
         return {'op': 'unset_link_property', 'g': g, 'a': a, 'b': b, 'kind': rng.choice(rawgraph.RELS), 'name': 'p0'}
     if k < 60:
         return {'op': 'update_link_properties', 'g': g, 'a': a, 'b': b, 'kind': rng.choice(rawgraph.RELS), 'props': {'p1': rawgraph.gen_value(rng)}}
-    if k < 72:
+    if k < 69:
         return {'op': 'import_string', 'g': g, 'desc': gen_small(rng), 'fmt': rng.choice(['graphml', 'json']), 'keys': rng.randrange(3)}
+    if k < 72:
+        return {'op': 'import_illformed', 'g': g, 'desc': gen_small(rng), 'fmt': rng.choice(['graphml', 'json']), 'keys': rng.randrange(3),
+                'drop': rng.randrange(5), 'direct': False}
     if k < 78:
         return {'op': 'import_direct', 'g': g, 'desc': gen_small(rng), 'fmt': rng.choice(['graphml', 'json']), 'keys': rng.randrange(3)}
     if k < 84:
@@ -131,6 +138,11 @@ def apply(imp, cls, op):
         return imp.import_graph_from_string(graph_string=text_of(op['desc'], op['fmt'], op['keys']), graph_id=op['g'])
     if o == 'import_direct':
         return imp.import_graph_from_string_direct(graph_string=text_of(op['desc'], op['fmt'], op['keys'], graph_id=op['g']))
+    if o == 'import_illformed':
+        if op['direct']:
+            return imp.import_graph_from_string_direct(graph_string=text_of(op['desc'], op['fmt'], op['keys'], graph_id=op['g'],
+                                                                            drop_id_of=op['drop']))
+        return imp.import_graph_from_string(graph_string=text_of(op['desc'], op['fmt'], op['keys'], drop_id_of=op['drop']), graph_id=op['g'])
     if o == 'delete_graph':
         return g.delete_graph() if op['via'] == 'graph' else imp.delete_graph(graph_id=op['g'])
     if o == 'delete_then_reimport':
@@ -164,6 +176,12 @@ def run_history(ctx, store, imp, cls, hist):
             ctx.count('frame-checks:2+graphs')
             nontriv = True
         w['exception'] = exc
+        if op['op'] == 'import_illformed':
+            ctx.count('import-illformed:refused' if exc else 'import-illformed:accepted')
+            if exc is None:
+                # (the *_direct entry points do not inspect node ids; only the checking importers are driven with such text)
+                # a store holding a node without NodeID is outside the domain of the statement: the history ends here
+                return True
         tg = targets(op)
         # ---- frame condition
         if tg is not None:
